@@ -729,7 +729,10 @@ def p_from_bool(ev, st, ctx):
 def p_abs_diff_signed(ev, st, ctx):
     a, b = ctx.args
     w = a.w
-    return T.trunc(T.uabs(T.sub(T.sext(a, 2 * w), T.sext(b, 2 * w))), w)
+    d = T.uabs(T.sub(T.sext(a, 2 * w), T.sext(b, 2 * w)))
+    if d.op != "const":
+        d._rng = (0, T.mask(w))  # |a - b| of two w-bit signed values is below 2^w
+    return T.trunc(d, w)
 
 
 @prim("re:core::num::<impl u(8|16|32|64)>::abs_diff")
